@@ -249,3 +249,47 @@ Theorem retry_without_deadline_refuted : forall s r k cl,
 Proof.
   intros s r k cl Hp Hc. simpl. rewrite Hp, Hc. simpl. unfold upd. rewrite Nat.eqb_refl. reflexivity.
 Qed.
+
+(* ---------- 6. (round 6) the HPACK encoding context ---------- *)
+
+Definition decoded_as_meant (o : option (list hfield * list hfield)) : Prop :=
+  match o with Some (m, d) => d = m | None => True end.
+
+Lemma hsend_run_sync : forall peer_max bs s, cl_tbl s = sv_tbl s ->
+  Forall decoded_as_meant (hsend_run (hsend_step peer_max) s bs).
+Proof.
+  induction bs as [|b bs IH]; intros s Hs; simpl; [constructor|].
+  unfold hsend_step at 1. destruct (peer_max <? list_size (meant (cl_tbl s) b)) eqn:E.
+  - constructor; [exact I | apply IH; auto].
+  - constructor; [simpl; rewrite Hs; reflexivity|].
+    apply (IH (mkHS (enc_after (cl_tbl s) b) (enc_after (sv_tbl s) b))). simpl. rewrite Hs; reflexivity.
+Qed.
+
+(* for EVERY sequence of requests on a connection - within the peer's header-list limit or
+   refused because of it - the peer decodes, for each request that is sent, exactly the fields
+   the client's encoder stands for: a refused request leaves the shared HPACK encoder untouched *)
+Theorem h2_requests_decoded_as_meant : forall peer_max bs,
+  Forall decoded_as_meant (hsend_run (hsend_step peer_max) hsend_init bs).
+Proof. intros. apply (hsend_run_sync peer_max bs hsend_init). reflexivity. Qed.
+
+(* a refused request changes nothing: the run is the run without it *)
+Theorem h2_refused_request_is_invisible : forall peer_max s b,
+  peer_max < list_size (meant (cl_tbl s) b) -> hsend_step peer_max s b = (s, None).
+Proof. intros peer_max s b H. unfold hsend_step. apply Nat.ltb_lt in H. rewrite H. reflexivity. Qed.
+
+(* the seeded variant: the refused request inserted (8,5); the later index 1 stands for (8,5)
+   in the client's table, but the peer, which never saw that block, resolves it to (7,5) - a
+   field of an EARLIER request *)
+Theorem h2_late_size_check_refuted :
+  let bs := [[(0, [HIns (7, 5)])]; [(0, [HIns (8, 5); HLit (1, 100)])]; [(0, [HIns (9, 5)])]; [(0, [HRef 1])]] in
+  hsend_run (hsend_step_late 20) hsend_init bs =
+    [Some ([(7, 5)], [(7, 5)]); None; Some ([(9, 5)], [(9, 5)]); Some ([(8, 5)], [(7, 5)])] /\
+  ~ Forall decoded_as_meant (hsend_run (hsend_step_late 20) hsend_init bs) /\
+  hsend_run (hsend_step 20) hsend_init bs =
+    [Some ([(7, 5)], [(7, 5)]); None; Some ([(9, 5)], [(9, 5)]); Some ([(7, 5)], [(7, 5)])].
+Proof.
+  split; [vm_compute; reflexivity|]. split; [|vm_compute; reflexivity].
+  vm_compute. intro H.
+  inversion H as [|? ? _ H1]; subst. inversion H1 as [|? ? _ H2]; subst.
+  inversion H2 as [|? ? _ H3]; subst. inversion H3 as [|? ? H4 _]; subst. discriminate H4.
+Qed.
